@@ -81,9 +81,20 @@ def run_contexts(facts, ctxs, inv=None, jobs=None):
         return list(ex.map(_run, [(c, inv) for c in ctxs], chunksize=2))
 
 
+def code_hash():
+    import hashlib
+    h = hashlib.sha256()
+    d = os.path.dirname(os.path.abspath(__file__))
+    for f in sorted(os.listdir(d)):
+        if f.endswith(".py"):
+            with open(os.path.join(d, f), "rb") as fh:
+                h.update(fh.read())
+    return h.hexdigest()[:10]
+
+
 def k2_results(facts, tier):
-    """all K2 contexts of the tier, cached on disk per tree hash"""
-    path = os.path.join(CACHE, "k2-%s-%s.pkl" % (facts.hash, tier))
+    """all K2 contexts of the tier, cached on disk per (tree hash, analyser code hash)"""
+    path = os.path.join(CACHE, "k2-%s-%s-%s.pkl" % (facts.hash, code_hash(), tier))
     if os.path.exists(path) and not os.environ.get("SQ_NOCACHE"):
         try:
             with open(path, "rb") as fh:
